@@ -37,9 +37,9 @@ def leaves():
 
 # ---- shapes: a shape is a function(col, ops) -> script tree, where ops() yields a fresh symbolic plain operator
 KINDS = ['bin', 'between', 'not_between', 'like', 'not_like', 'like_esc', 'is_in', 'is_not_in', 'is_null', 'is_not_null', 'cast_as', 'not', 'func', 'tuple2', 'case',
-         'pgop', 'sqliteop', 'custom']
+         'pgop', 'sqliteop', 'custom', 'as_enum']
 ARITY = {'bin': 2, 'between': 3, 'not_between': 3, 'like': 1, 'not_like': 1, 'like_esc': 1, 'is_in': 2, 'is_not_in': 2, 'is_null': 1, 'is_not_null': 1, 'cast_as': 1,
-         'not': 1, 'func': 1, 'tuple2': 2, 'case': 2, 'pgop': 2, 'sqliteop': 2, 'custom': 2}
+         'not': 1, 'func': 1, 'tuple2': 2, 'case': 2, 'pgop': 2, 'sqliteop': 2, 'custom': 2, 'as_enum': 1}
 
 def mk(kind, kids, newop, extra=None):
     if kind == 'bin': return ['bin', newop(), kids[0], kids[1]]
@@ -49,6 +49,7 @@ def mk(kind, kids, newop, extra=None):
     if kind in ('is_in', 'is_not_in'): return ['m', kind, kids[0], [kids[1], ['val', V('Int', 9)]]]
     if kind in ('is_null', 'is_not_null', 'not'): return ['m', kind, kids[0]]
     if kind == 'cast_as': return ['m', 'cast_as', kids[0], 'integer']
+    if kind == 'as_enum': return ['m', 'as_enum', kids[0], 'ety']      # Postgres: CAST(x AS "ety"); MySQL / SQLite: the bare operand (the node is transparent)
     if kind == 'func': return ['func', 'max', [kids[0]]]
     if kind == 'tuple2': return ['tuple', [kids[0], kids[1]]]
     if kind == 'case': return ['case', [[kids[0], kids[1]]], ['val', V('Int', 0)]]
@@ -80,6 +81,7 @@ def canon(t, m, dialect):
         if meth in ('is_null', 'is_not_null'): return ('is', 'not' in meth, x, ('kw', 'NULL'))
         if meth == 'not': return ('not', x)
         if meth == 'cast_as': return ('cast', x, t[3].upper())
+        if meth == 'as_enum': return ('cast', x, t[3]) if dialect == 'postgres' else x
     if k == 'func': return ('func', t[1].upper(), [canon(a, m, dialect) for a in t[2]])
     if k == 'tuple': return ('tuple', [canon(a, m, dialect) for a in t[1]])
     if k == 'case': return ('case', [(cond_canon(c, m, dialect), canon(th, m, dialect)) for c, th in t[1]], canon(t[2], m, dialect) if t[2] is not None else None)
@@ -171,8 +173,13 @@ def shapes(backend, depth3):
                     if len(cxs) > 1 and len(extras(r)) > 1: cxs = cxs[:4]
                     for cx in cxs:
                         out.append((r, cpos, c, None, None, {'r': rx, 'c': cx}))
+    # an enum cast is a transparent wrapper on MySQL / SQLite (and CAST(..) on Postgres): what it wraps must still be delimited -> depth 3 through it in both tiers
+    core = ['bin', 'between', 'not_between', 'like', 'is_in', 'is_null', 'not', 'cast_as']
+    for r in roots:
+        if r in ('pgop', 'sqliteop', 'tuple2', 'case', 'func'): continue
+        for cpos in range(ARITY[r]):
+            for g in core: out.append((r, cpos, 'as_enum', 0, g, {'r': None}))
     if depth3:
-        core = ['bin', 'between', 'not_between', 'like', 'is_in', 'is_null', 'not', 'cast_as']
         for r in core:
             for cpos in range(ARITY[r]):
                 for c in core:
